@@ -61,6 +61,8 @@ var space = engine.Space{
 	// form parameter client_id: auto = what the credential kind needs (the client's id for a POSTed secret, nothing otherwise)
 	engine.D("formcid", "auto", "absent", "own", "other", "unknown", "dup", "dup-rev"),
 	engine.D("caps", "all", "no-tv", "no-te"),
+	// what the storage policy puts into the claims of the issued token (claims_test.go)
+	engine.D("claims", claimPolicies...),
 	// where the parameters travel: all in the body / grant_type in the URL query / everything in the URL query
 	engine.D("chan", "body", "gt-query", "query"),
 	// virtual host the request is addressed to (issuer = https://<host>)
@@ -132,6 +134,7 @@ type input struct {
 	clientID        string   // the client a valid credential was presented for ("" none)
 	dupIDs          bool
 	caps            string
+	claims          string // alphabet name of the policy's claims decision (claims_test.go)
 	channel         string
 	host            int
 	router          int
@@ -139,7 +142,7 @@ type input struct {
 
 // decode builds the request description from named alphabet values (g returns the value of a dimension).
 func (w *world) decode(g func(string) string) *input {
-	in := &input{subj: w.sub[g("subj")], act: w.act[g("actor")], auth: g("auth"), caps: g("caps"), policyName: g("policy"), channel: g("chan")}
+	in := &input{subj: w.sub[g("subj")], act: w.act[g("actor")], auth: g("auth"), caps: g("caps"), policyName: g("policy"), channel: g("chan"), claims: g("claims")}
 	in.policy = policies[in.policyName]
 	auto := func(tk *tok) string {
 		if tk.typ != "" {
@@ -238,6 +241,7 @@ type expectation struct {
 	scopes  []string
 	actor   string
 	eff     string // effective requested type
+	claimsDecision
 }
 
 // judgeToken: is tk, declared as typ and presented under virtual host `host`, "a live token
@@ -461,7 +465,7 @@ func (k *worker) run(v engine.Vec) engine.Result {
 	var res engine.Result
 	if pan := engine.Bubble(k.t, caseAt, func() {
 		r := k.rigs[in.caps]
-		r.Core.Cfg.Exchange = in.policy
+		configure(r, in, exp)
 		r.Core.Reset(k.w.st.Clone())
 		res = k.evaluate(r, in, exp, k.request(r, in))
 	}); pan != "" {
@@ -666,10 +670,8 @@ func (k *worker) probe(r *rig.Rig, in *input, exp *expectation, body map[string]
 			if cid, _ := m["client_id"].(string); cid != "" && cid != in.clientID {
 				return label + "-client", fmt.Sprintf("JWT access token client_id %q, authenticated client %q", cid, in.clientID)
 			}
-			if act, ok := m["act"].(map[string]any); ok {
-				if s, _ := act["sub"].(string); s != exp.actor {
-					return label + "-actor", fmt.Sprintf("act.sub %q, expected %q", s, exp.actor)
-				}
+			if w, d := exp.checkClaims(m, label); w != "" {
+				return w, d
 			}
 		}
 		if slices.Contains(in.aud, "api") {
@@ -734,10 +736,11 @@ func (k *worker) probe(r *rig.Rig, in *input, exp *expectation, body map[string]
 		if (claims.GivenName != "") != hasProfile {
 			return "id-token-scopes", fmt.Sprintf("ID token profile claims present=%v, policy decided scopes %q", claims.GivenName != "", exp.scopes)
 		}
-		if claims.Actor != nil && claims.Actor.Subject != exp.actor {
-			return "id-token-actor", fmt.Sprintf("act.sub %q, expected %q", claims.Actor.Subject, exp.actor)
+		m := jwtPayload(token)
+		if m == nil {
+			return "id-token-invalid", "ID token payload is not a JSON object"
 		}
-		return "", ""
+		return exp.checkClaims(m, "id-token")
 	}
 	return "issued-type-unissuable", fmt.Sprintf("issued_token_type %q is not a kind of token the provider issues", itt)
 }
@@ -794,6 +797,26 @@ func TestCheck(t *testing.T) {
 		},
 	})
 	c.Extra("vetoes_longest_fault_free_journal", w.maxJournal.Load())
+	claimGroups := [][]string{
+		{"claims", "actor", "requested", "auth", "router"}, // each x every <=1 deviation of the other dimensions
+		{"claims", "policy", "scopes", "requested", "router"},
+		{"claims", "subj", "actor", "auth", "router"},
+	}
+	claimKs := []int{1, 1, 1}
+	if c.Thorough() {
+		claimGroups = [][]string{{"claims", "subj", "actor", "requested", "auth", "policy", "scopes", "router"}} // x every <=1 deviation of audience/resource, channel, capabilities, host
+		claimKs = []int{1}
+	}
+	c.RunE1(engine.E1{
+		Part:   "claims",
+		Space:  claimSpace,
+		Groups: claimGroups,
+		Ks:     claimKs,
+		NewWorker: func(int) func(engine.Vec) engine.Result {
+			wk := newWorker(t, w)
+			return wk.runClaims
+		},
+	})
 	kp := engine.Pick(c, 0, 1)
 	c.RunE1(engine.E1{
 		Part:  "pairs",
